@@ -383,7 +383,7 @@ def run(plan, tier="quick") -> RunResult:
             if _checkpoint_scenario(plan, aln, tree, saved_rules, res, replay, counter) is False:
                 return _finish(res, h, plan)
         # the same pair through the hypothesis app
-        if plan["via_app"] and plan["kind"] in ("matrix", "matrix+scope"):
+        if plan["via_app"] and plan["kind"] in ("matrix", "matrix+scope", "scope-indep", "scope-edges"):
             from cogent3 import get_app
 
             res.probe("hypothesis-app")
@@ -391,7 +391,11 @@ def run(plan, tier="quick") -> RunResult:
             ob = {"max_evaluations": max(plan["n1"], 30), "limit_action": "ignore"}
             try:
                 m0 = get_app("model", plan["null"], tree=tree, opt_args=ob, show_progress=False)
-                m1kw = {"time_het": "max"} if plan["kind"] == "matrix+scope" else {}
+                m1kw = {"time_het": "max"} if plan["kind"] in ("matrix+scope", "scope-indep") else {}
+                if plan["kind"] == "scope-edges":
+                    edges = [e.name for e in tree.get_edge_vector(include_root=False)]
+                    sel = sorted({edges[e % len(edges)] for e in plan["scope_edges"]})
+                    m1kw = {"time_het": [dict(edges=sel, is_independent=len(sel) > 1 and plan["start"][1] > 0.5)]}
                 m1 = get_app("model", plan["alt"], name=f"{plan['alt']}-alt", tree=tree, opt_args=oa,
                              show_progress=False, **m1kw)
                 chain = [plan["null"], f"{plan['alt']}-alt"]
